@@ -226,6 +226,11 @@ def rule_r1(ctx: Ctx) -> None:
         model = GenModel()
         env.hooks.append(model.call)
         env.sub_hooks.append(model.sub)
+        # helpers of the refinement (methods of its class hierarchy incl. super().generate(...), module-level functions) are inlined
+        from ..inline import make_inline_hook
+        ih_ = make_inline_hook(prog, cls, gen.module, skip=("randint", "random_float", "choice", "choice_weighted", "random_bool", "rec", "validate", "GengyList"))
+        env.hooks.append(ih_)
+        env.assume_hooks.append(ih_.assume)
         env.count_assumption = lambda n_, model=model: model.assumed.append(
             f"loop count {n_!r} >= 0 (size parameters are non-negative: user contract)")
         # locals that start as empty list / empty string literals are sequences of length 0
